@@ -44,6 +44,10 @@ TEXTS = {
                      "spec/mc/MC_ledger.tla (batch alphabet) queues requests and settles them at end of block in EVERY order; TLC checks the contract and all ledger invariants exhaustively (2.5e5 states quick, 1.8e6 thorough). "
                      "Model behaviours (exhaustive to depth 3, TLC-simulated to depth 6-8) and long walks with 2-7 requests per block (same/opposite directions, two-hop routes sharing a pool, both forms, tight/impossible limits, foreign recipients, price-moving joins/exits and fee-conversion swaps in the same block) are replayed on the REAL ElysApp and every step is validated by TLC.",
             "note": _TB},
+    "C20": {"technique": "TLA+ invariant (escrow backs every pending order) + step contracts (wallet+escrow conservation, owner-only update/cancel, trigger-gated execution, frame), TLC trace validation of real ABCI executions with long seeded walks",
+            "level": "spec/elys/Orders.tla: every escrow account holds at least the amounts of the pending orders it backs; wallet + pending-order amounts per owner and denom are conserved by every tradeshield step except that a successful perpetual execution moves exactly the collateral into a position; cancel returns the whole escrow and removes the order; update/cancel (single and batch) alter only the sender's own orders; an execution request from anyone alters or removes an order only if the market price - probed through the real price functions on the state before the step - satisfies its trigger; orders and escrows change only through tradeshield messages. "
+                     "Walks of 50-100 steps (all order types, triggers below/at/above market, owners / other users / bots, batch messages naming arbitrary ids, oracle price moves, executions made to fail through pool health, withdrawals and big positions) run on the REAL ElysApp through FinalizeBlock/Commit; TLC validates every observed step against this and all other contracts.",
+            "note": _TB + " No exhaustive model of the order book yet (walks only); the trigger comparison is the specification's, the market price is the implementation's own price function probed on the pre-state."},
     "C08": {"technique": "TLA+ state invariants over leveraged-LP positions + close step contract, TLC trace validation",
             "level": _lvl("C08 is the invariant pool.LeveragedLpAmount = sum of position LP amounts, position LP = shares committed at the position address, open counter = stored positions, nothing left committed at the address of a removed position; checked after every begin-block sweep, transaction and end-block of histories with opens, consolidations, partial/full closes, bot MsgClosePositions and price moves."),
             "note": _TB},
